@@ -9,7 +9,8 @@ VALS = ["", "-", "--", "--rm", "-e", "a b", "a=b", "=x", "x=", "ünï©ödé ✓
 KEYS = ["A", "PATH", "MY_VAR", "a.b", "-k", "--rm", "k k", "ü", "K2"]
 BPS = ["heroku/nodejs", "-x", "--builder", "docker://x/y:1", "a b", "urn:cnb:registry:heroku/ruby", "--trust-builder", "--env=A=B", "ü/ß"]
 BUILDERS = ["heroku/builder:22", "--weird", "b b", "builder=1"]
-APPDIRS = ["fixtures/app", "a b/ünï", "./x", "-app", "$ABS/appdir", "$ABS/a b/--x", "x//y", "t/"]
+APPDIRS = ["fixtures/app", "a b/ünï", "./x", "-app", "$ABS/appdir", "$ABS/a b/--x", "x//y", "t/",
+           "$TMP/fix", "$TMP/a b/app"]        # $TMP: a fixture below the system temporary directory
 PORTS = [0, 1, 80, 443, 8080, 65535]
 MPATHS = ["/src", "/a b", "/ü", "rel/p", "/x=y", "/-d", "--mount", "/target=/etc", "/a;b"]
 
@@ -100,7 +101,8 @@ class C17:
         def B(x):
             return cq_bytes(x.encode())
         root = os.path.dirname(o["manifest_dir"])
-        app_dir = c["app_dir"].replace("$ABS", os.path.join(root, "abs"))
+        app_dir = c["app_dir"].replace("$ABS", os.path.join(root, "abs")).replace("$TMP", o["tmp_dir"])
+        leftover = [x for x in o["leftover"] if not (c["app_dir"].startswith("$TMP/") and x == c["app_dir"].split("/")[1])]
         benv = cq_list([f"({B(k)}, {B(v)})" for k, v in sorted(c["benv"].items(), key=lambda kv: kv[0].encode())])
         cenv = cq_list([f"({B(k)}, {B(v)})" for k, v in sorted(c["cenv"].items(), key=lambda kv: kv[0].encode())])
         mounts = cq_list([f"({B(k)}, {B(v)})" for k, v in sorted(c["mounts"].items(), key=lambda kv: comp_key(kv[0]))])
@@ -112,7 +114,7 @@ class C17:
         packs = [e for e in o["log"] if e["prog"] == "pack" and e["argv"][:1] == [list(b"build")]]
         want = sorted(FIXTURE_LISTING + ([["PREPROCESSED", [120]]] if c["pre"] else []))
         copy_ok = len(packs) == 1 and packs[0].get("path_listing") == want
-        untouched = len(o["fixtures"]) == 1 and o["fixtures"][0]["listing"] == FIXTURE_LISTING and o["status"] == "done" and not o["leftover"]
+        untouched = len(o["fixtures"]) == 1 and o["fixtures"][0]["listing"] == FIXTURE_LISTING and o["status"] == "done" and not leftover
         return "(mkCase %s %s %s %s %s %s %s %s %s %s %s)" % (
             B(c["builder"]), B(app_dir), cq_list([B(x) for x in c["buildpacks"]]), benv, cq_bool(c["pre"]), ccfg,
             B(o["manifest_dir"]), B(o["tmp_dir"]), cmds, cq_bool(copy_ok), cq_bool(untouched))
@@ -154,6 +156,7 @@ class C17:
         for c in cases:
             d["pre"] += c["pre"]
             d["abs_app_dir"] += c["app_dir"].startswith("$ABS")
+            d["app_dir_below_tmp"] = d.get("app_dir_below_tmp", 0) + c["app_dir"].startswith("$TMP")
             d["entrypoint"] += c["entrypoint"] is not None
             d["command"] += c["command"] is not None
             vals = list(c["benv"].values()) + list(c["cenv"].values()) + (c["command"] or []) + c["buildpacks"] + ([c["entrypoint"]] if c["entrypoint"] else [])
